@@ -1,6 +1,8 @@
 -- Root of the `Bee2V` library: every property module (`./check --setup` builds this).
+import Bee2V.C03.Props
 import Bee2V.C08.Props
 import Bee2V.C08.Props2
+import Bee2V.C11.Props
 import Bee2V.C14.Props
 import Bee2V.Gen.C14Obl
 import Bee2V.C14.PropsCmp
